@@ -33,7 +33,7 @@ FEES = {"free": (F(0), F(0)), "paid": (F(1), F(1, 100)), "dy": (F(1), F(1, 16))}
 
 def model(name, contracts, ops, depth, fees="paid", bids=(8, 12), spreads=(0, 2), dqs=(-2, -1, 1, 2),
           lots=(), reqs=(), steps=(1,), rate=F(0), markup=F(0), deposit=F(1000),
-          refrule="carry", spotmult="applied", sublot="skip", invariants=(), properties=(), dyadic=False, maxrebal=99, maxclk=99, epsilon=F(0), dq_rats=None):
+          refrule="carry", spotmult="applied", sublot="skip", invariants=(), properties=(), dyadic=False, maxrebal=99, maxclk=99, epsilon=F(0), dq_rats=None, all_paths=False):
     cs = {c: CONTRACTS[c] for c in contracts}
     fixed, prop = FEES[fees]
     defs = {
@@ -52,7 +52,7 @@ def model(name, contracts, ops, depth, fees="paid", bids=(8, 12), spreads=(0, 2)
     return {
         "name": name, "depth": depth,
         "module": tlagen.mc_module("MC", "Broker", defs),
-        "cfg": tlagen.cfg(defs, plain, invariants=invariants, properties=properties, view="view"),
+        "cfg": tlagen.cfg(defs, plain, invariants=invariants, properties=properties, view=None if all_paths else "view"),
         "py": {"contracts": cs, "fixed": fixed, "prop": prop, "deposit": deposit, "rate": rate,
                "markup": markup, "dyadic": dyadic, "epsilon": epsilon},
         "invariants": list(invariants), "properties": list(properties),
